@@ -72,6 +72,12 @@ def gen_case(run, i):
         ref = [[rng.randint(1, vmax) for _ in range(w)] for _ in range(h)]
     else:
         ref = [[rng.randint(1, vmax) for _ in range(w)] for _ in range(h)]
+    if i % 16 == 11 and model == 'gain-blk-offset':
+        # a reference that is constant over the block (saturated, or a constant fill): the block normalisation gain std(ref)/std(src)
+        # is exactly 0, the definition gives gain 0 and the reference value as offset at every jointly valid pixel
+        cval = rng.randint(1, vmax)
+        ref = [[cval for _ in range(w)] for _ in range(h)]
+        style = 'constant-reference'
     if i % 16 == 7 and model != 'gain-blk-offset':
         # a source that is negative throughout (signed data: anomalies, slightly negative reflectance over water): every kernel sum
         # of the source is negative and non-zero; the definitions do not care about signs
@@ -241,7 +247,7 @@ def run(run: common.Run):
                         (abs(norm[0] - d0) > 1e-5 * max(1.0, abs(d0)) or abs(norm[1] - d1) > 1e-4 * max(1.0, abs(d1))):
                     run.fail(case, f'block normalisation (gain, offset) = ({norm[0]:.6g}, {norm[1]:.6g}); std ratio and first-percentile offset over '
                              f'the {int(jmask.sum())} jointly valid pixels are ({d0:.6g}, {d1:.6g})', signature=dict(kind='block-norm'))
-        if norm is not None and not (np.all(np.isfinite(norm)) and norm[0] != 0):
+        if norm is not None and not np.all(np.isfinite(norm)):
             run.hist['degenerate block normalisation (std = 0 or no valid pixel): skipped'] += 1
             continue
         run.hist[f"model={case['model']}"] += 1
@@ -311,11 +317,11 @@ def leg3(run, case, params, norm, jm):
                 thru = g * ms_raw + o
             else:
                 thru = g * ms + o
-            if not np.isfinite(g):
-                run.fail(case, f'jointly valid pixel ({r},{c}) with a non-degenerate window has gain {g}',
+            if not np.isfinite(g) or not np.isfinite(o):
+                run.fail(case, f'jointly valid pixel ({r},{c}) with a non-degenerate window has gain {g}, offset {o}',
                          signature=dict(kind='no-params-on-mask'))
                 return
-            if abs(thru - mr) > 2e-4 * max(1.0, abs(mr)):
+            if not (abs(thru - mr) <= 2e-4 * max(1.0, abs(mr))):      # (NaN-aware: a NaN offset is a failure too)
                 run.fail(case, f'fitted line at ({r},{c}) maps mean source {ms} to {thru}, mean reference is {mr}',
                          signature=dict(kind='line-through-means'))
                 return
